@@ -1715,3 +1715,24 @@ def configured_duration_first_rule(ctx, rid):
                'type is ignored', ci.mod.rel, getattr(found[0], 'lineno', fn.lineno) if found else fn.lineno)
     if n == 0:
         raise AnalysisError('ThermalNoiseModel: no method reads <op>.gate.duration any more')
+
+
+def unsigned_digit_arrays_rule(ctx, rid):
+    """Measured digits are stored in unsigned bytes on every path (terminal sampling, per repetition, both simulators)."""
+    repo = ctx.repo
+    ctx.decided.append(f'{rid} every 8-bit array of measured digits in cirq.sim is unsigned (siblings agree on np.uint8)')
+    ctx.rule(rid, 'one digit type on all paths: every 8-bit integer dtype that cirq.sim gives to an array (np.zeros / np.array / np.asarray / astype, dtype=np.int8 | np.uint8) is np.uint8 - '
+             'the per-repetition path and sample_state_vector record digits as unsigned bytes; a signed array on the terminal-sampling path turns the digit 150 of a qudit into -106, '
+             'so the same run seen through run() and simulate() disagrees', floor=5, style='COH')
+    n = 0
+    for m in sorted(repo.modules.values(), key=lambda x: x.rel):
+        if not m.rel.startswith('cirq-core/cirq/sim/') or m.rel.endswith('_test.py'):
+            continue
+        for k in ast.walk(m.tree):
+            if isinstance(k, ast.keyword) and k.arg == 'dtype' and isinstance(k.value, ast.Attribute) and k.value.attr in ('int8', 'uint8'):
+                n += 1
+                ok = k.value.attr == 'uint8'
+                ctx.ob(rid, f'{m.name}:dtype@{sum(1 for k2 in ast.walk(m.tree) if isinstance(k2, ast.keyword) and k2.arg == "dtype" and isinstance(k2.value, ast.Attribute) and k2.value.attr in ("int8", "uint8") and k2.value.lineno < k.value.lineno)}',
+                       ok, '' if ok else 'a signed 8-bit array holds measured digits here; the sibling paths use np.uint8 (digits 128..255 of a qudit come back negative)', m.rel, k.value.lineno)
+    if n == 0:
+        raise AnalysisError(f'{rid}: no 8-bit digit array found in cirq.sim')
